@@ -1,7 +1,11 @@
 (* val-level entry points of the family "connect" (C10 C11, integration half of C12):
    the real sse.Client/Connection behind a scripted http.RoundTripper.
 
-   input : ( cfg steps )
+   input : ( cfg steps ) | ( cfg steps ( steps ... ) )
+       the second form: the SAME Connection is connected again after Connect returned - one script per further Connect
+       call, made as long as the call before it returned something else than the context's error (retries exhausted,
+       MaxRetries < 0, a validator or body-reset error) and did not run out of script; the Connection, its request and
+       the request's GetBody are the same objects throughout, every call has a backoff controller of its own
      cfg  = ( backoff body n<OnRetry set> (opt x<initial Last-Event-ID header>) (opt z<patience>) n<cancelled before>
               n<other connections> ( n<RoundTrip us> n<body end us> ) n<context kind> )
        backoff as in the family "backoff"; body = ( n<kind> n<after> n<e> ) with kind 0 = no body,
@@ -47,7 +51,8 @@
      err  = (n0) io.EOF | (n1) io.ErrUnexpectedEOF | (n2 n<e>) injected | (n3) context | (n4) ErrNoGetBody | (n5) too long
      result = () Connect was still running when the script ran out | ( ret )
      waited: one per OnRetry call that is followed by a request - whether at least the duration handed to OnRetry
-       passed (monotonic clock) between the end of that call and the start of the RoundTrip: "the wait actually used" *)
+       passed (monotonic clock) between the end of that call and the start of the RoundTrip: "the wait actually used"
+     for the second form of input the output has a fourth element: ( ( items result waited ) ... ), one per further call made *)
 From GoSse Require Import Base Whatwg Backoff Connect Run RunClient.
 From GoSse.Gen Require Import Params.
 Local Open Scope Z_scope.
@@ -123,9 +128,23 @@ Fixpoint timed_waits (tr : list titem) : list val :=
       end
   end.
 
+Definition enc_out (tr : list titem) (r : option cret) : list val :=
+  [VL (map enc_titem tr); vopt enc_cret r; VL (timed_waits tr)].
+
+(* the scripts of an input: the first call's, then one per further call *)
+Definition dec_scripts (i : val) : list (list step) :=
+  map dec_step (as_l (nth_val 1 i)) :: map (fun v => map dec_step (as_l v)) (as_l (nth_val 2 i)).
+
 Definition run_connect (i : val) : val :=
-  let '(tr, r) := connect_run (dec_ccfg (nth_val 0 i)) (map dec_step (as_l (nth_val 1 i))) in
-  VL [VL (map enc_titem tr); vopt enc_cret r; VL (timed_waits tr)].
+  let cfg := dec_ccfg (nth_val 0 i) in
+  match as_l i with
+  | _ :: _ :: _ :: _ =>
+      match connect_runs cfg (dec_scripts i) with
+      | (tr, r) :: outs => VL (enc_out tr r ++ [VL (map (fun o => VL (enc_out (fst o) (snd o))) outs)])
+      | [] => VL []
+      end
+  | _ => let '(tr, r) := connect_run cfg (map dec_step (as_l (nth_val 1 i))) in VL (enc_out tr r)
+  end.
 
 (* ---- the oracles ------------------------------------------------------------------------------
    One walk over the script and the OBSERVED trace, written from the three property texts; the clauses
@@ -251,18 +270,43 @@ Fixpoint walk (mask : tag) (cfg : ccfg) (b : backoff) (steps : list step) (items
       end
   end.
 
+(* the requests among the observed items of a call: one per attempt made *)
+Definition count_requests (items : list val) : nat :=
+  length (filter (fun it => N.eqb (as_n (nth_val 0 it)) 0) items).
+
+(* One Connect call after the other on the same Connection (a single call: one script, one output).  Call number
+   k+1 is judged by the same walk, started from what the property says the Connection carries over: the ID of the most
+   recently dispatched event over ALL attempts made so far, and a request counter that goes on - so that the FIRST
+   request of a later call is a reconnection like any other (header from that ID, body re-obtained through GetBody,
+   ErrNoGetBody / GetBody's error instead of a consumed body).  The waits of a call start at InitialInterval with no
+   retry counted: Connect makes its backoff controller anew. *)
+Fixpoint walk_calls (mask : tag) (cfg : ccfg) (b : backoff) (scripts : list (list step)) (outs : list val)
+                    (j : nat) (lid : bytes) : bool :=
+  match scripts, outs with
+  | sc :: scripts', o :: outs' =>
+      let items := as_l (nth_val 0 o) in
+      let k := count_requests items in
+      walk mask cfg b sc items (nth_val 1 o) j lid (bo_initial b) O &&
+      walk_calls mask cfg b scripts' outs' (j + k) (id_after lid (firstn k sc))
+  | _, _ => true
+  end.
+
+(* the outputs of all calls: the first three elements of [o] are the first call's *)
+Definition all_outs (o : val) : list val := o :: as_l (nth_val 3 o).
+
 Definition holds_connect (mask : tag) (i o : val) : bool :=
   let cfg := dec_ccfg (nth_val 0 i) in
   let b := spec_backoff (cc_backoff cfg) in
   if cc_cancel_before cfg
   then (* C11: the context's error, and nothing is requested *)
-       match as_l (nth_val 0 o) with [] => val_eqb (nth_val 1 o) (VL [enc_cret RCtx]) | _ => false end
+       match as_l (nth_val 0 o) with [] => val_eqb (nth_val 1 o) (VL [enc_cret RCtx]) | _ => false end &&
+       match as_l (nth_val 3 o) with [] => true | _ => false end
   else
-  walk mask cfg b (map dec_step (as_l (nth_val 1 i))) (as_l (nth_val 0 o)) (nth_val 1 o) O [] (bo_initial b) O.
+  walk_calls mask cfg b (dec_scripts i) (all_outs o) O [].
 
 Definition holds_connect_c10 := holds_connect T10.
 Definition holds_connect_c11 (i o : val) : bool :=
-  negb (val_eqb (nth_val 1 o) (VL [enc_cret RNil])) && holds_connect T11 i o.
+  forallb (fun o' => negb (val_eqb (nth_val 1 o') (VL [enc_cret RNil]))) (all_outs o) && holds_connect T11 i o.
 (* C12 also: the wait handed to OnRetry is the wait actually used - no request started earlier than that *)
 Definition holds_connect_c12 (i o : val) : bool :=
-  forallb as_bool (as_l (nth_val 2 o)) && holds_connect T12 i o.
+  forallb (fun o' => forallb as_bool (as_l (nth_val 2 o'))) (all_outs o) && holds_connect T12 i o.
